@@ -34,6 +34,12 @@ func symErr(fr *frame, label string) value {
 		if b, _ := g.(bool); b {
 			return fr.i.mkError("verif: " + label + " failed")
 		}
+		if s, _ := g.(string); s == "EOF" {
+			// the decoder found nothing to read: io.EOF itself
+			if pkg := fr.i.prog.ImportedPackage("io"); pkg != nil && pkg.Var("EOF") != nil {
+				return *(fr.get(pkg.Var("EOF")).(*value))
+			}
+		}
 		return iface{}
 	}
 	if fr.ex().concrete {
@@ -260,12 +266,34 @@ func init() {
 		fr.i.event("json.Decode", readerTag(fr, o.aux))
 		return symErr(fr, "json.Decode")
 	}
+	// the XML decoder is a real struct (its exported configuration fields can be set by the
+	// program); NewDecoder's own work is reduced to "strict mode on"; the reader is kept aside
 	intrinsics["encoding/xml.NewDecoder"] = func(fr *frame, args []value) value {
-		return &hostObj{kind: "xmldec", aux: args[0]}
+		t := mustDeref(fr.fn.Signature.Results().At(0).Type())
+		cell := zero(t)
+		cell.(structure)[fieldIndex(t, "Strict")] = true
+		p := &cell
+		fr.i.decoderReaders[p] = args[0]
+		return p
 	}
 	intrinsics["(*encoding/xml.Decoder).Decode"] = func(fr *frame, args []value) value {
-		o := args[0].(*hostObj)
-		fr.i.event("xml.Decode", readerTag(fr, o.aux))
+		p, _ := args[0].(*value)
+		if p == nil {
+			panic(rtErr("runtime error: invalid memory address or nil pointer dereference"))
+		}
+		t := recvElem(fr)
+		st := (*p).(structure)
+		mode := "strict"
+		if b, _ := st[fieldIndex(t, "Strict")].(bool); !b {
+			mode = "lenient"
+		}
+		if m, _ := st[fieldIndex(t, "Entity")].(*omap); m != nil {
+			mode += "+entities"
+		}
+		if sl, _ := st[fieldIndex(t, "AutoClose")].([]value); len(sl) > 0 {
+			mode += "+autoclose"
+		}
+		fr.i.event("xml.Decode", readerTag(fr, fr.i.decoderReaders[p]), mode)
 		return symErr(fr, "xml.Decode")
 	}
 	intrinsics["github.com/monoculum/formam.NewDecoder"] = func(fr *frame, args []value) value {
